@@ -302,7 +302,8 @@ reg(Prop('C07', 'exploration', [
         'owner free removes segment and lock names; clean-up after a kill yields a fresh zeroed segment of the new size with a working lock. Non-trivial = a byte stored by one process loaded by another, a race with both creators alive, or a kill; distinct = distinct history text.',
     assumptions=_ipc_assume, corpus_harness='ipcx', design_ref='4/C07, 3.2'))
 PROPS['C08'].subs += [Sub('mp', 'ipcx', shards=(6, 12), cases=(400, 3000), maxsize=(60, 100), env={'VERIF_SUB': 'hist'}, timeout=(900, 3600))]
-PROPS['C08'].rule += ' Multi-process layer: the same operations spread over handles in 3 worker processes against one FIFO model in the coordinator, plus concurrent producer/consumer phases moving sequence-numbered frames (whole frames, per-producer order).'
+PROPS['C08'].subs += [Sub('pc', 'ipcx', shards=(6, 6), cases=(1, 1), env={'VERIF_SUB': 'enum'}, timeout=(900, 3600))]
+PROPS['C08'].rule += ' Multi-process layer: the same operations spread over handles in 3 worker processes against one FIFO model in the coordinator, plus concurrent producer/consumer phases moving sequence-numbered frames (whole frames, per-producer order); the pc sub-run always runs two producer processes against one consumer on three capacities, 6 repetitions x 2 phases.'
 ENGINES.append(dict(name='ipcx', path='engines/ipcx', serves_properties=['C06', 'C07', 'C08'], kind_free_text='multi-process step executor: generated histories, reference model in the coordinator, kill/pause points on interposed IPC libc calls'))
 LEVEL_TEXT['C06'] = 'Model-based multi-process histories with counter observation after every step, blocking probes, k-exclusion phases and SIGKILL at every IPC call boundary (enumerated) followed by the documented clean-up.'
 LEVEL_TEXT['C07'] = 'Model-based multi-process histories (byte model, sizes, cross-process lock), enumerated first-use race positions and kill points with the documented clean-up.'
